@@ -119,8 +119,18 @@ def _run_shard(args):
     accepted = "REJECTED" not in out2 and rc2 == 0 and st[0] > 0
     if not accepted:
         return dict(ok=False, err="trace not consumed by TraceObserver (rc=%d): %s" % (rc2, out2[-3000:]))
+    # component conformance (never a violation by itself): internal hook events vs the model's sender functions
+    dev = []
+    rc3, out3 = tlc("TraceSender.tla", "TraceSender.cfg", env=dict(TRACE=trace), workers=1, timeout=3000, java_opts="-Xmx3g")
+    if "REJECTED" in out3 or rc3 != 0:
+        return dict(ok=False, err="trace not consumed by TraceSender (rc=%d): %s" % (rc3, out3[-2000:]))
+    for line in out3.splitlines():
+        line = line.strip().strip('"')
+        if line.startswith("DEV "):
+            p = line.split()
+            dev.append((int(p[1]), int(p[2]), p[3]))
     m = re.search(r"simrun: (\d+) scenarios, (\d+) events", out)
-    return dict(ok=True, viol=viol, states=st[0], scen=int(m.group(1)) if m else 0, events=int(m.group(2)) if m else 0)
+    return dict(ok=True, viol=viol, dev=dev, states=st[0], scen=int(m.group(1)) if m else 0, events=int(m.group(2)) if m else 0)
 
 
 def run_scripts(name, lines, binary="simrun_gen", shards=None):
@@ -139,7 +149,7 @@ def run_scripts(name, lines, binary="simrun_gen", shards=None):
         with open(sp, "w") as f: f.write("\n".join(part) + "\n")
         jobs.append((os.path.join(BIN, binary), sp, os.path.join(d, "trace_%02d.ndjson" % i), os.path.join(d, "tlc_%02d.txt" % i)))
         offs.append(i * per)
-    res = dict(viol=[], scen=0, events=0, states=0, dir=d, shards=[])
+    res = dict(viol=[], dev=[], scen=0, events=0, states=0, dir=d, shards=[])
     with cf.ThreadPoolExecutor(max_workers=NCPU) as ex:
         outs = list(ex.map(_run_shard, jobs))
     for (job, off, o) in zip(jobs, offs, outs):
@@ -148,6 +158,8 @@ def run_scripts(name, lines, binary="simrun_gen", shards=None):
         res["scen"] += o["scen"]; res["events"] += o["events"]; res["states"] += o["states"]
         for (sc, n, cl) in o["viol"]:
             res["viol"].append(dict(sc=off + sc, n=n, clause=cl, shard=job[1], trace=job[2], local=sc))
+        for (sc, n, what) in o.get("dev", []):
+            res["dev"].append(dict(sc=off + sc, n=n, what=what, trace=job[2], local=sc))
     return res
 
 
